@@ -149,7 +149,8 @@ IsHandlerLine(o) == o.op \in {"ReconcileOne", "PassStep"}
 (* API objects, by the loaded configuration and by what the controller has on record) and holds them in  *)
 (* memory leaves them in memory - whatever happens to the status write                                   *)
 C03_StableMem(j, o) ==
-  (SameWalk(j, i) /\ Trace[j].crashes = o.crashes /\ ~o.crashed /\ IsHandlerLine(o) /\ o.s \in SvcAll) =>
+  (SameWalk(j, i) /\ Trace[j].crashes = o.crashes /\ ~o.crashed /\ IsHandlerLine(o) /\ o.s \in SvcAll
+     /\ o.fresh) =>      \* the handler was given the current object, not a stale cache / snapshot copy
      LET p == Trace[j]  a == Api(p)  b == Api(o)  s == o.s  m == Mem(p)  n == Mem(o) IN
      ( /\ a[s] # NULL /\ b[s] # NULL /\ a[s].spec = b[s].spec
        /\ a[s].status # <<>> /\ m[s] # NULL /\ SetEq(m[s].ips, a[s].status)
